@@ -177,6 +177,7 @@ class UpdateContext():
         the update argument is missing in *value*'s context.
         """
         import jinja2
+        import lena.flow
         # data, context = value
         data, context = lena.flow.get_data_context(value)
         if isinstance(self._update, (str, jinja2.Template)):
